@@ -1257,7 +1257,11 @@ impl<'a> GeneratorState<'a> {
                 let mut lx = self.whitespaces_regex.replace_all(&l, " ");
                 if lx.len() > 256 {
                     let lxx = lx.to_mut();
-                    lxx.truncate(256);
+                    let mut cut = 256;
+                    while !lxx.is_char_boundary(cut) {
+                        cut -= 1;
+                    }
+                    lxx.truncate(cut);
                     lxx.push_str("...\n");
                     self.comment(&lxx)?; // Should include the '\n'
                 } else {
